@@ -205,3 +205,45 @@ pub fn graph_case(case: &Value, _dispatch: Dispatch, r: &mut Report) {
         }
     }
 }
+
+// ---------------------------------------------------------------------------------------------
+// identity of tracked objects: a record, its first member (same address, another type), an unrelated object
+#[repr(C)]
+pub struct Dept {
+    pub head: Emp,
+    pub size: u32,
+}
+pub struct Emp {
+    pub id: u32,
+}
+
+/// {"kind":"offers","seqs":[[["D","H","D"],[0,0,1]],..]}: every sequence of offers, bytes as the table of the specification writes them
+pub fn offers_case(case: &Value, _dispatch: Dispatch, r: &mut Report) {
+    let d = Dept { head: Emp { id: 1 }, size: 2 };
+    let e = Box::new(Emp { id: 3 });
+    assert_eq!(&d as *const Dept as usize, &d.head as *const Emp as usize, "the first member shares the record's address");
+    for s in case["seqs"].as_array().unwrap() {
+        r.count("offers");
+        let want = bytes_of(&s[1]);
+        let seq: Vec<&str> = s[0].as_array().unwrap().iter().map(|x| x.as_str().unwrap()).collect();
+        let got = guarded(|| {
+            let mut ctx = SerializationContext::new(Vec::<u8>::new());
+            let mut news = Vec::new();
+            for o in &seq {
+                let fresh = match *o {
+                    "D" => ctx.store_ref_or_object(&d),
+                    "H" => ctx.store_ref_or_object(&d.head),
+                    _ => ctx.store_ref_or_object(&*e),
+                }?;
+                news.push(fresh);
+            }
+            Ok::<_, desert_core::Error>((ctx.into_output(), news))
+        });
+        let want_new: Vec<bool> = want.iter().map(|b| *b == 0).collect();
+        match got {
+            Ok(Ok((bytes, news))) if bytes == want && news == want_new => {}
+            other => r.finding("offers", &["C10"], json!({"offers": seq, "spec": want,
+                "impl": match other { Ok(Ok((b, n))) => json!({"bytes": b, "new": n}), Ok(Err(e)) => json!(e.to_string()), Err(p) => json!({"panic": p}) }})),
+        }
+    }
+}
